@@ -112,7 +112,7 @@ Sensitivity (tools/mut.py C13 ..., quick tier, final module; all CAUGHT unless s
                                                                          reaches orbit.dissipation_changed through world.dissipation_changed
   --patch fixes/revert-de31ebe.diff                                   -> exception/TypingError, where cooling_models(njit typing)
   seeded/C13-1, seeded/C13-2 (tools/seed_catch.sh)                    -> fresh/global_love_by_orderl (fixed_q, ctl_q); fresh/de/dt,da/dt
-  orbit/base.py set_state: drop the host update of the set_by_world branch -> see MUT-HOST below (host_tides family)
+  orbit/base.py set_state: drop the host update of the set_by_world / deferred branch -> fresh/host_* (host_tides family)
 """
 import copy
 import math
